@@ -68,7 +68,7 @@ Lemma pend_nil_cpend c : pend (io c) = [] -> cpend c = [].
 Proof. unfold cpend. intros ->. reflexivity. Qed.
 
 (* LinuxBootLogin without login delay, with a password *)
-Theorem login_succeeds cfg c pw (st_user st_pw : stage) (sts : list stage) noise0 noise1 :
+Theorem login_succeeds_full cfg c pw (st_user st_pw : stage) (sts : list stage) noise0 noise1 :
   b_login_delay cfg = 0 -> b_password cfg = Some pw ->
   match b_timeout cfg with Some T => 0 < T | None => True end ->
   match b_nopw cfg with Some n => 0 < n | None => True end ->
@@ -91,7 +91,8 @@ Theorem login_succeeds cfg c pw (st_user st_pw : stage) (sts : list stage) noise
     login_step cfg (now (io c)) (st_user :: st_pw :: sts) c = (BOk, c', sts) /\
     wr (io c') = wr (io c) ++ (utf8_enc (b_user cfg) ++ [CR]) ++ (utf8_enc pw ++ [CR]) /\
     pend (io c') = shift (now (io c')) st_pw /\ wfc c' /\ deaths c' = [] /\
-    match b_timeout cfg with Some T => now (io c') < now (io c) + T | None => True end.
+    match b_timeout cfg with Some T => now (io c') < now (io c) + T | None => True end /\
+    slow c' = None /\ blacklist c' = blacklist c.
 Proof.
   intros Hdelay Hpw HT Hn Hw Hd Hs Hc0 Ho0 Hr0 Hbu Hbp Hwu Hcu Hou Hwin Hwp.
   unfold login_step.
@@ -144,11 +145,43 @@ Proof.
   rewrite E8. exists c8. split; [reflexivity|].
   split; [rewrite Wr8, K6, Wr6, Q6, <- !app_assoc; reflexivity|].
   split; [rewrite P8, P7, N8; reflexivity|]. split; [exact W8|]. split; [exact D8|].
+  split; [|split; [exact S8 | congruence]].
   (* still within the boot timeout *)
   destruct (b_timeout cfg) as [T|] eqn:ET; [|exact I].
   rewrite N8. unfold in_time in T7. unfold tmo in T7. rewrite N6, N1 in T7.
   unfold in_time in T1. rewrite N1 in T1.
   destruct (b_nopw cfg); lia.
+Qed.
+
+Theorem login_succeeds cfg c pw (st_user st_pw : stage) (sts : list stage) noise0 noise1 :
+  b_login_delay cfg = 0 -> b_password cfg = Some pw ->
+  match b_timeout cfg with Some T => 0 < T | None => True end ->
+  match b_nopw cfg with Some n => 0 < n | None => True end ->
+  wfc c -> deaths c = [] -> slow c = None ->
+  (* the console's output up to the login prompt arrives before the boot timeout expires *)
+  cpend c = noise0 ++ LOGIN_P -> prompt_only_at_end LOGIN_P noise0 ->
+  ready (deadline (now (io c)) (b_timeout cfg)) (pend (io c)) = length (cpend c) ->
+  any_in (blacklist c) (utf8_enc (b_user cfg) ++ [CR]) = false ->
+  any_in (blacklist c) (utf8_enc pw ++ [CR]) = false ->
+  (* the reaction to the user name ends with the password prompt and arrives within the password wait *)
+  wf_pend st_user -> cat st_user = noise1 ++ PASSWORD_P -> prompt_only_at_end PASSWORD_P noise1 ->
+  within (match b_nopw cfg, b_timeout cfg with
+          | None, None => None
+          | None, Some T => Some (now (io c) + T - last_time c)
+          | Some n, None => Some n
+          | Some n, Some T => Some (Z.min (now (io c) + T - last_time c) n)
+          end) st_user ->
+  wf_pend st_pw ->
+  exists c',
+    login_step cfg (now (io c)) (st_user :: st_pw :: sts) c = (BOk, c', sts) /\
+    wr (io c') = wr (io c) ++ (utf8_enc (b_user cfg) ++ [CR]) ++ (utf8_enc pw ++ [CR]) /\
+    pend (io c') = shift (now (io c')) st_pw /\ wfc c' /\ deaths c' = [] /\
+    match b_timeout cfg with Some T => now (io c') < now (io c) + T | None => True end.
+Proof.
+  intros Hdelay Hpw HT Hn Hw Hd Hs Hc0 Ho0 Hr0 Hbu Hbp Hwu Hcu Hou Hwin Hwp.
+  destruct (login_succeeds_full cfg c pw st_user st_pw sts noise0 noise1 Hdelay Hpw HT Hn Hw Hd Hs Hc0 Ho0 Hr0 Hbu Hbp Hwu Hcu Hou Hwin Hwp)
+    as (c' & A1 & A2 & A3 & A4 & A5 & A6 & _).
+  exists c'. auto 10.
 Qed.
 
 Corollary bringup_succeeds cfg c pw (st_user st_pw : stage) (sts : list stage) noise0 noise1 :
